@@ -9,7 +9,7 @@ use crate::tables;
 pub struct C04;
 
 /// quantity spellings (literal, unit)
-pub const QUANT: [(&str, &str); 68] = [
+pub const QUANT: [(&str, &str); 71] = [
     ("3", "N"), ("10", "kg"), ("2", "km^2"), ("5", "m/s^2"), ("1", "Wb"), ("2", "V"), ("3", "mA"), ("1", "btu"), ("2", "h"), ("4", "l"),
     ("7", "m"), ("0.5", "s"), ("6", "J"), ("12", "W"), ("9", "Pa"), ("2", "C"), ("3", "F"), ("5", "ohm"), ("2", "T"), ("4", "H"),
     ("8", "ft"), ("3", "lb"), ("2", "gal"), ("1.5", "acre"), ("60", "km/h"), ("2", "kWh"), ("3", "N*m"), ("7", "kg*m/s^2"), ("2", "mol"), ("5", "cd"),
@@ -21,6 +21,8 @@ pub const QUANT: [(&str, &str); 68] = [
     ("1", "mm/ms"), ("2", "km/ks"), ("3", "kN/km^2"), ("2", "mN*mm"), ("5", "kg*km/ks^2"), ("1", "mm^2/ms"), ("4", "kW/km^2"),
     // a prefix on a unit with a conversion factor, under a power other than one
     ("3", "kbtu^2"), ("2", "kft^2"), ("1", "J/kbtu"), ("5", "mgal^3"), ("2", "kyd^-2"),
+    // units without a numerator part, one of them under a prefix
+    ("2", "s^-1"), ("3", "ms^-1"), ("4", "km^-1"),
 ];
 
 fn quants() -> Vec<Expr> {
